@@ -597,6 +597,18 @@ impl Transaction {
         self.transaction_type == TransactionType::Issuance
     }
 
+    /// Fee, ATR, SPV and Issuance transactions are generated by consensus (or by the lite-block
+    /// server) and are only meaningful inside a block; they are never accepted from users.
+    pub fn is_consensus_generated_type(&self) -> bool {
+        matches!(
+            self.transaction_type,
+            TransactionType::Fee
+                | TransactionType::ATR
+                | TransactionType::SPV
+                | TransactionType::Issuance
+        )
+    }
+
     // generates
     //
     // when the block is created, block.generate() is called to fill in all the
